@@ -313,6 +313,113 @@ Proof.
   rewrite map_app, IH. f_equal. eapply uname_client_subst; eauto.
 Qed.
 
+(* ------------------------------------------------------------------ the variables on the paths of a typed term are in its context *)
+Lemma rmv_var bs l z : In (KV z) (rmv bs l) <-> binds bs z = false /\ In (KV z) l.
+Proof. unfold rmv. rewrite filter_In. simpl. rewrite negb_true_iff. tauto. Qed.
+
+Lemma uname_client_var Δ Γ sh n t z : client_ty Δ Γ sh n t -> In (KV z) (uname sh n) -> is_Some (Γ !! z).
+Proof.
+  intros [_ [_ H]]. unfold uname. destruct (chan n); simpl; [intros [H1|[]]; discriminate|].
+  destruct H as [_ [t' [H _]]]. destruct (prov_ref sh n); simpl; [tauto|]. intros [[= <-]|[]]. eauto.
+Qed.
+
+Lemma args_var Δ Γ sh args ps z : args_ok teq Δ Γ sh args ps -> In (KV z) (flat_map (uname sh) args) -> is_Some (Γ !! z).
+Proof.
+  intros H. induction H as [|a p args ps [t [_ H1]] H IH]; simpl; [tauto|].
+  rewrite in_app_iff. intros [Hz|Hz]; eauto using uname_client_var.
+Qed.
+
+Lemma path_vars_mut Δ :
+  (forall Γ sh rs s f, typed Δ Γ sh rs s f ->
+     forall pi z, In pi (pnames sh f) -> In (KV z) pi -> is_Some (Γ !! z)) /\
+  (forall Γ rs bs b, typed_brs_p Δ Γ rs bs b ->
+     forall pi z, In pi (pnames_bp b) -> In (KV z) pi -> is_Some (Γ !! z)) /\
+  (forall Γ sh rs s bs b, typed_brs_c Δ Γ sh rs s bs b ->
+     forall pi z, In pi (pnames_bc sh b) -> In (KV z) pi -> is_Some (Γ !! z)).
+Proof.
+  assert (Hins : forall (Γ : gmap string sty) b (A : sty) z, String.eqb (ident b) z = false ->
+            is_Some (<[ident b := A]> Γ !! z) -> is_Some (Γ !! z)).
+  { intros Γ b A z E H. apply String.eqb_neq in E. by rewrite lookup_insert_ne in H. }
+  assert (Hdel : forall (Γ : gmap string sty) c z, is_Some (delete c Γ !! z) -> is_Some (Γ !! z)).
+  { intros Γ c z [v H]. apply lookup_delete_Some in H as [_ H]. eauto. }
+  apply typed_mutind; simpl.
+  - intros Γ sh rs s to pay cont A B m Hp Hw H1 H2 pi z [<-|[]] Hz.
+    rewrite (proj1 (uname_prov _ _ _ Hp)) in Hz. simpl in Hz. apply in_app_iff in Hz as [Hz|Hz]; eauto using uname_client_var.
+  - intros Γ sh rs s to pay cont T A B m H1 Hw H2 Hp Ht pi z [<-|[]] Hz.
+    rewrite (proj1 (uname_prov _ _ _ Hp)), app_nil_r in Hz. apply in_app_iff in Hz as [Hz|Hz]; eauto using uname_client_var.
+  - intros Γ sh rs s pay cont from k A B m Hp Hw Hb1 Hb2 Hne Hk IH pi z Hpi Hz.
+    rewrite (proj2 (uname_prov _ _ _ Hp)) in Hpi. apply in_map_iff in Hpi as (pk & <- & Hpk).
+    apply rmv_var in Hz as [Hb Hz]. rewrite binds1 in Hb. eapply Hdel, Hins; eauto.
+  - intros Γ sh rs s pay cont from k T A B m Hc Hw Hb1 Hb2 Hne Hs1 Hs2 Hk IH pi z Hpi Hz.
+    destruct (uname_client_subst Δ Γ sh from from (ident from) [] T from T eq_refl eq_refl) as [_ _] || idtac.
+    assert (Hpd : pdes sh from = false).
+    { destruct Hc as [Hs [_ Hc]]. unfold pdes, initialized. destruct (chan from); simpl; auto.
+      destruct Hc as [Hc _]. by rewrite (prov_ref_false sh from Hs Hc). }
+    rewrite Hpd in Hpi. apply in_map_iff in Hpi as (pk & <- & Hpk).
+    apply in_app_iff in Hz as [Hz|Hz]; [eauto using uname_client_var|].
+    apply rmv_var in Hz as [Hb Hz]. rewrite binds2 in Hb. apply orb_false_iff in Hb as [E1 E2].
+    eapply Hins; [exact E1|]. eapply Hins; [exact E2|]. eauto.
+  - intros Γ sh rs s to l cont bs m A Hp Hw Hf Hc pi z [<-|[]] Hz.
+    rewrite (proj1 (uname_prov _ _ _ Hp)) in Hz. eauto using uname_client_var.
+  - intros Γ sh rs s to l cont T bs m A Hc Hw Hf Hp Ht pi z [<-|[]] Hz.
+    rewrite (proj1 (uname_prov _ _ _ Hp)), app_nil_r in Hz. eauto using uname_client_var.
+  - intros Γ sh rs s from b bs m Hp Hw Hcov Hb IH pi z Hpi Hz.
+    rewrite (proj2 (uname_prov _ _ _ Hp)) in Hpi. apply in_ne_inv in Hpi as [Hpi|[_ ->]]; [eauto|destruct Hz].
+  - intros Γ sh rs s from b T bs m Hc Hw Hcov Hb IH pi z Hpi Hz.
+    assert (Hpd : pdes sh from = false).
+    { destruct Hc as [Hs [_ Hc]]. unfold pdes, initialized. destruct (chan from); simpl; auto.
+      destruct Hc as [Hc _]. by rewrite (prov_ref_false sh from Hs Hc). }
+    rewrite Hpd in Hpi. apply in_map_iff in Hpi as (pk & <- & Hpk).
+    apply in_app_iff in Hz as [Hz|Hz]; [eauto using uname_client_var|].
+    apply in_ne_inv in Hpk as [Hpk|[_ ->]]; [eauto|destruct Hz].
+  - intros Γ sh rs s x body k A Hb Hs1 Hbody IHb Hk IHk pi z Hpi Hz.
+    apply in_crossk in Hpi as (a1 & a2 & H1 & H2 & ->). apply in_map_iff in H2 as (pk & <- & Hpk).
+    apply in_app_iff in Hz as [Hz|Hz]; [eauto|]. apply rmv_var in Hz as [E Hz]. rewrite binds1 in E.
+    eapply Hins; eauto.
+  - intros Γ sh rs s c m Hp Hw pi z [<-|[]] Hz. rewrite (proj1 (uname_prov _ _ _ Hp)) in Hz. destruct Hz.
+  - intros Γ sh rs s c k T m Hc Hw Hk IH pi z Hpi Hz. apply in_map_iff in Hpi as (pk & <- & Hpk).
+    apply in_app_iff in Hz as [Hz|Hz]; eauto using uname_client_var.
+  - intros Γ sh rs s to from d Hp Hc pi z [<-|[]] Hz.
+    rewrite (proj1 (uname_prov _ _ _ Hp)) in Hz. eauto using uname_client_var.
+  - intros Γ sh rs s c k T Hc Hk IH pi z Hpi Hz. apply in_map_iff in Hpi as (pk & <- & Hpk).
+    apply in_app_iff in Hz as [Hz|Hz]; eauto using uname_client_var.
+  - intros Γ sh rs s fn args pt fd tf Hg Hf Ht Hargs pi z [<-|[]] Hz.
+    destruct Hargs as [[Hl Ha]|[a0 [rest [-> [Hl [Hp Ha]]]]]]; [eauto using args_var|].
+    simpl in Hz. rewrite (proj1 (uname_prov _ _ _ Hp)) in Hz. eauto using args_var.
+  - intros Γ sh rs s to cont fm tm A Hp Hw Hc pi z [<-|[]] Hz.
+    rewrite (proj1 (uname_prov _ _ _ Hp)) in Hz. eauto using uname_client_var.
+  - intros Γ sh rs s to cont T fm tm A Hc Hw Hp Ht pi z [<-|[]] Hz.
+    rewrite (proj1 (uname_prov _ _ _ Hp)), app_nil_r in Hz. eauto using uname_client_var.
+  - intros Γ sh rs s x from k fm tm A Hp Hw Hb Hk IH pi z Hpi Hz.
+    rewrite (proj2 (uname_prov _ _ _ Hp)) in Hpi. eauto.
+  - intros Γ sh rs s x from k T fm tm A Hc Hw Hb Hs1 Hk IH pi z Hpi Hz.
+    assert (Hpd : pdes sh from = false).
+    { destruct Hc as [Hs [_ Hc]]. unfold pdes, initialized. destruct (chan from); simpl; auto.
+      destruct Hc as [Hc _]. by rewrite (prov_ref_false sh from Hs Hc). }
+    rewrite Hpd in Hpi. apply in_map_iff in Hpi as (pk & <- & Hpk).
+    apply in_app_iff in Hz as [Hz|Hz]; [eauto using uname_client_var|].
+    apply rmv_var in Hz as [E Hz]. rewrite binds1 in E. eapply Hins; eauto.
+  - intros Γ sh rs s x y from k T Hc Hbx Hby Hne Hs1 Hs2 Hk IH pi z Hpi Hz.
+    apply in_map_iff in Hpi as (pk & <- & Hpk).
+    apply in_app_iff in Hz as [Hz|Hz]; [eauto using uname_client_var|].
+    apply rmv_var in Hz as [Hb Hz]. rewrite binds2 in Hb. apply orb_false_iff in Hb as [E1 E2].
+    eapply Hins; [exact E1|]. eapply Hins; [exact E2|]. eauto.
+  - intros Γ sh rs s l k Hk IH pi z Hpi Hz. eauto.
+  - intros; contradiction.
+  - intros Γ rs bs l pay k r A Hf Hb Hk IHk Hr IHr pi z Hpi Hz.
+    apply in_app_iff in Hpi as [Hpi|Hpi]; eauto.
+  - intros; contradiction.
+  - intros Γ sh rs s bs l pay k r A Hf Hb Hs1 Hk IHk Hr IHr pi z Hpi Hz.
+    apply in_app_iff in Hpi as [Hpi|Hpi]; [|eauto].
+    apply in_map_iff in Hpi as (pk & <- & Hpk). apply rmv_var in Hz as [E Hz]. rewrite binds1 in E. eapply Hins; eauto.
+Qed.
+
+Lemma client_pdes Δ Γ sh n t : client_ty Δ Γ sh n t -> pdes sh n = false.
+Proof.
+  intros [Hs [_ Hc]]. unfold pdes, initialized. destruct (chan n); simpl; auto.
+  destruct Hc as [Hc _]. by rewrite (prov_ref_false sh n Hs Hc).
+Qed.
+
 (* ------------------------------------------------------------------ a channel for a variable renames the paths *)
 Lemma pnames_subst_mut Δ old new x kc A :
   chan old = None -> ident old = x -> chan new = Some kc ->
@@ -341,15 +448,22 @@ Proof.
   - (* SendC *) intros Γ' sh rs s to pay cont T A0 B m Hc1 Hw Hc2 Hp Ht Γ -> Hsh Hrs; simpl.
     destruct (Hpr _ _ _ Hsh Hrs Hp) as (-> & Eu & _). destruct (Hcl _ _ _ _ Hsh Hc1) as (-> & _). destruct (Hcl _ _ _ _ Hsh Hc2) as (-> & _).
     by rewrite Eu, !map_app.
-  - (* RecvP *) intros Γ' sh rs s pay cont from k A0 B m Hp Hw Hbp Hbc Hne Hfr Hk IH Γ -> Hsh Hrs; simpl.
+  - (* RecvP *) intros Γ' sh rs s pay cont from k A0 B m Hp Hw Hbp Hbc Hne Hk IH Γ -> Hsh Hrs; simpl.
     destruct (Hpr _ _ _ Hsh Hrs Hp) as (-> & _ & ->).
     rewrite (binder_eqb pay old), (binder_eqb cont old) by auto. rewrite Hx.
-    assert (E2 : ident cont <> x) by (intros <-; rewrite lookup_insert in Hfr; discriminate).
     destruct (String.eqb (ident pay) x) eqn:E1; simpl.
     { apply paths_stop0. by rewrite binds1. }
-    apply String.eqb_neq in E2. rewrite E2. simpl. apply String.eqb_neq in E2. apply String.eqb_neq in E1.
-    rewrite (IH (<[ident pay := A0]> Γ)); [|apply insert_commute; auto|congruence|set_solver].
-    apply paths_go0. rewrite binds1. by apply String.eqb_neq.
+    apply String.eqb_neq in E1.
+    destruct (String.eqb (ident cont) x) eqn:E2; simpl.
+    { (* the provider is rebound to x: no variable x below *)
+      apply String.eqb_eq in E2. rewrite map_map. apply map_ext_in. intros pk Hpk. symmetry. apply ren_id_notin.
+      intros Hin. apply elem_of_list_In, rmv_var in Hin as [_ Hin].
+      destruct (proj1 (path_vars_mut Δ) _ _ _ _ _ Hk pk x Hpk Hin) as [v Hv].
+      rewrite lookup_insert_ne in Hv by auto. rewrite E2, lookup_delete in Hv. discriminate. }
+    apply String.eqb_neq in E2.
+    rewrite (IH (<[ident pay := A0]> (delete (ident cont) Γ))); [| |congruence|set_solver].
+    + apply paths_go0. rewrite binds1. by apply String.eqb_neq.
+    + rewrite del_ins_ne by auto. apply insert_commute; auto.
   - (* RecvC *) intros Γ' sh rs s pay cont from k T A0 B m Hc Hw Hbp Hbc Hne Hs1 Hs2 Hk IH Γ -> Hsh Hrs; simpl.
     destruct (Hcl _ _ _ _ Hsh Hc) as (-> & -> & ->).
     rewrite (binder_eqb pay old), (binder_eqb cont old) by auto. rewrite Hx.
@@ -394,12 +508,16 @@ Proof.
     destruct (Hpr _ _ _ Hsh Hrs Hp) as (-> & Eu & _). destruct (Hcl _ _ _ _ Hsh Hc) as (-> & _). by rewrite Eu.
   - (* CastC *) intros Γ' sh rs s to cont T fm tm A0 Hc Hw Hp Ht Γ -> Hsh Hrs; simpl.
     destruct (Hpr _ _ _ Hsh Hrs Hp) as (-> & Eu & _). destruct (Hcl _ _ _ _ Hsh Hc) as (-> & _). by rewrite Eu, !map_app.
-  - (* ShiftP *) intros Γ' sh rs s y from k fm tm A0 Hp Hw Hb Hfr Hk IH Γ -> Hsh Hrs; simpl.
+  - (* ShiftP *) intros Γ' sh rs s y from k fm tm A0 Hp Hw Hb Hk IH Γ -> Hsh Hrs; simpl.
     destruct (Hpr _ _ _ Hsh Hrs Hp) as (-> & _ & ->).
     rewrite (binder_eqb y old) by auto. rewrite Hx.
-    assert (E1 : ident y <> x) by (intros <-; rewrite lookup_insert in Hfr; discriminate).
-    apply String.eqb_neq in E1. rewrite E1. simpl. apply String.eqb_neq in E1.
-    apply (IH Γ); [reflexivity|congruence|set_solver].
+    destruct (String.eqb (ident y) x) eqn:E1; simpl.
+    { apply String.eqb_eq in E1. rewrite <- (map_id (pnames (Some (ident y)) k)) at 1. apply map_ext_in. intros pk Hpk.
+      symmetry. apply ren_id_notin. intros Hin. apply elem_of_list_In in Hin.
+      destruct (proj1 (path_vars_mut Δ) _ _ _ _ _ Hk pk x Hpk Hin) as [v Hv].
+      rewrite E1, lookup_delete in Hv. discriminate. }
+    apply String.eqb_neq in E1.
+    apply (IH (delete (ident y) Γ)); [by rewrite del_ins_ne|congruence|set_solver].
   - (* ShiftC *) intros Γ' sh rs s y from k T fm tm A0 Hc Hw Hb Hs1 Hk IH Γ -> Hsh Hrs; simpl.
     destruct (Hcl _ _ _ _ Hsh Hc) as (-> & -> & ->).
     rewrite (binder_eqb y old) by auto. rewrite Hx.
@@ -420,11 +538,16 @@ Proof.
     + rewrite (insert_commute _ (ident x0) x) by auto. rewrite (insert_commute _ (ident y) x) by auto. reflexivity.
   - (* Print *) intros Γ' sh rs s l k Hk IH Γ -> Hsh Hrs; simpl. by apply (IH Γ).
   - (* brs_p nil *) intros; simpl. reflexivity.
-  - (* brs_p cons *) intros Γ' rs bs l pay k r A0 Hf Hb Hfr Hk IHk Hr IHr Γ -> Hrs; simpl.
+  - (* brs_p cons *) intros Γ' rs bs l pay k r A0 Hf Hb Hk IHk Hr IHr Γ -> Hrs; simpl.
     rewrite (binder_eqb pay old) by auto. rewrite Hx.
-    assert (E1 : ident pay <> x) by (intros <-; rewrite lookup_insert in Hfr; discriminate).
-    apply String.eqb_neq in E1. rewrite E1. simpl. apply String.eqb_neq in E1.
-    rewrite map_app, (IHr Γ) by auto. f_equal. apply (IHk Γ); [reflexivity|congruence|set_solver].
+    rewrite map_app, (IHr Γ) by auto. f_equal.
+    destruct (String.eqb (ident pay) x) eqn:E1; simpl.
+    { apply String.eqb_eq in E1. rewrite <- (map_id (pnames (Some (ident pay)) k)) at 1. apply map_ext_in. intros pk Hpk.
+      symmetry. apply ren_id_notin. intros Hin. apply elem_of_list_In in Hin.
+      destruct (proj1 (path_vars_mut Δ) _ _ _ _ _ Hk pk x Hpk Hin) as [v Hv].
+      rewrite E1, lookup_delete in Hv. discriminate. }
+    apply String.eqb_neq in E1.
+    apply (IHk (delete (ident pay) Γ)); [by rewrite del_ins_ne|congruence|set_solver].
   - (* brs_c nil *) intros; simpl. reflexivity.
   - (* brs_c cons *) intros Γ' sh rs s bs l pay k r A0 Hf Hb Hs1 Hk IHk Hr IHr Γ -> Hsh Hrs; simpl.
     rewrite (binder_eqb pay old) by auto. rewrite Hx. rewrite map_app, (IHr Γ) by auto. f_equal.
